@@ -28,7 +28,7 @@ func VerifC02_FetchBlock() {
 	c := cid.NewCidV1(cid.Raw, mh)
 	key := cidlink.Link{Cid: c}.Binary()
 
-	body := verif_Bytes("body", verif_Choose("bodyLen", 0, 3)) // empty, truncated, extended, altered or another block
+	body := verif_Bytes("body", verif_Choose("bodyLen", 0, 3+3*verif_Tier())) // empty, truncated, extended, altered or another block
 	status := []int{200, 200, 404, 500}[verif_Choose("status", 0, 3)]
 	transportErr := verif_Bool("transportError")
 
